@@ -37,7 +37,10 @@ DecJudge(scn, obs) ==
       ref == RefJar(text)
       fs == CkCatalogue[scn.ty]
       KeyIdx(f) == {i \in 1..Len(ref) : ref[i].k.v = CkNameCp(f)}
-      asserted == /\ WellFormedCookie(text) /\ AllUtf8(ref)
+      \* every value the target reads is text; a cookie the target does not know may hold anything (it is skipped, whatever its escapes decode to)
+      Known(i) == \E j \in 1..Len(fs) : ref[i].k.v = CkNameCp(fs[j].f)
+      textual == IF scn.ty = "CkMap" THEN AllUtf8(ref) ELSE \A i \in 1..Len(ref) : ref[i].k.ok /\ (Known(i) => ref[i].v.ok)
+      asserted == /\ WellFormedCookie(text) /\ textual
                   /\ (scn.ty = "CkMap" => \A i \in 1..Len(ref) : \A j \in 1..Len(ref) : i # j => ref[i].k.v # ref[j].k.v)
                   /\ \A i \in 1..Len(fs) : Cardinality(KeyIdx(fs[i].f)) = 1 \/ (fs[i].k = "optstr" /\ KeyIdx(fs[i].f) = {})
       FieldOK(fld) == LET ix == KeyIdx(fld.f)
